@@ -199,7 +199,10 @@ type bbMachineOpts struct {
 	steps      int
 	checkC05   bool
 	concurrent bool
+	rounds     bool // adds the "severalRounds" action (a height that needs several rounds, with stragglers); C04 only
 }
+
+const bbSeveralRoundsMark = "several-round height"
 
 // bbMachine is the stateful generator shared by C04 and C05.
 func bbMachine(rt *rapid.T, r *ev.Rec, o bbMachineOpts, c05 *c05State) (w *bbWorld, counted int) {
@@ -387,6 +390,165 @@ func bbMachine(rt *rapid.T, r *ev.Rec, o bbMachineOpts, c05 *c05State) (w *bbWor
 		}
 	}
 
+	if o.rounds {
+		// A height that needs several rounds, as the consensus states drive it when nodes disagree or lag: a suffrage-confirm
+		// round that (mostly) does not finish, later stage points of the same height whose votes split (draws, sometimes
+		// majorities), the first votes for a still later stage point, stragglers (late ballots for earlier points of the
+		// height), then the remaining votes for the later stage point. Everything is drawn: height, rounds, walk over stage
+		// points, cuts, voters, kinds of the late ballots, and other actions in between.
+		severalRounds := func(t *rapid.T) {
+			h := int64(rapid.IntRange(33, 35).Draw(t, "roundsHeight"))
+			r0 := uint64(rapid.IntRange(0, 1).Draw(t, "firstRound"))
+
+			w.mu.Lock()
+			w.history = append(w.history, fmt.Sprintf("%s %d from round %d", bbSeveralRoundsMark, h, r0))
+			w.mu.Unlock()
+
+			vote := func(kind string, hh int64, rr uint64, node int) {
+				if _, _, err := w.vote(bbBallotDesc{Height: hh, Round: rr, Kind: kind, Node: node, ExpelBy: "full"}); err != nil {
+					t.Fatalf("Vote error: %v", err)
+				}
+			}
+
+			between := func() {
+				switch rapid.IntRange(0, 9).Draw(t, "between") {
+				case 0:
+					w.history = append(w.history, "count")
+					w.box.Count()
+				case 1:
+					if _, _, err := w.vote(genBBDesc(w).Draw(t, "ballot")); err != nil {
+						t.Fatalf("Vote error: %v", err)
+					}
+				case 2:
+					check()
+				}
+			}
+
+			type stage struct {
+				r      uint64
+				accept bool
+			}
+
+			kindOf := func(s stage) string {
+				if s.accept {
+					return "accept"
+				}
+
+				return "init"
+			}
+
+			next := func(s stage, toAccept bool) stage {
+				if toAccept && !s.accept {
+					return stage{r: s.r, accept: true}
+				}
+
+				return stage{r: s.r + 1}
+			}
+
+			// (1) suffrage-confirm ballots for (h,r0) from a few nodes
+			k1 := rapid.SampledFrom([]int{1, 1, 2, w.n - 1}).Draw(t, "scVoters")
+			s1 := rapid.IntRange(0, w.n-1).Draw(t, "scStart")
+			sckind := rapid.SampledFrom([]string{"sc", "sc", "sc", "scX"}).Draw(t, "scKind")
+
+			for i := 0; i < k1; i++ {
+				vote(sckind, h, r0, (s1+i)%w.n)
+			}
+
+			between()
+
+			// (2) the height goes on: later stage points, the suffrage splits between two facts at each of them
+			cur := stage{r: r0}
+			m := rapid.IntRange(1, 3).Draw(t, "laterPoints")
+
+			for j := 0; j < m; j++ {
+				cur = next(cur, rapid.Bool().Draw(t, "toAccept"))
+
+				cut := rapid.IntRange(0, w.n).Draw(t, "cut")
+				if rapid.IntRange(0, 3).Draw(t, "evenSplit") > 0 {
+					cut = w.n / 2
+				}
+
+				for i := 0; i < w.n; i++ {
+					kind := kindOf(cur)
+					if i >= cut {
+						kind += "X"
+					}
+
+					vote(kind, h, cur.r, i)
+				}
+
+				between()
+			}
+
+			// (3) first votes for a still later stage point
+			qh, q := h, stage{r: cur.r + 1}
+
+			switch rapid.IntRange(0, 7).Draw(t, "laterPoint") {
+			case 0:
+				qh, q = h+1, stage{}
+			case 1:
+				q = next(cur, true)
+			}
+
+			k3 := rapid.IntRange(1, w.n-1).Draw(t, "firstVoters")
+			s3 := rapid.IntRange(0, w.n-1).Draw(t, "firstStart")
+
+			for i := 0; i < k3; i++ {
+				vote(kindOf(q), qh, q.r, (s3+i)%w.n)
+			}
+
+			between()
+
+			// (4) stragglers: late ballots for earlier points of the height
+			nlate := rapid.IntRange(1, 2).Draw(t, "lateBallots")
+
+			for j := 0; j < nlate; j++ {
+				kind := rapid.SampledFrom([]string{"sc", "sc", "sc", "sc", "scX", "init", "accept"}).Draw(t, "lateKind")
+				rr := r0
+
+				if rapid.IntRange(0, 3).Draw(t, "lateOtherRound") == 0 {
+					rr = uint64(rapid.IntRange(int(r0), int(cur.r)).Draw(t, "lateRound"))
+				}
+
+				node := (s3 + k3 + rapid.IntRange(0, w.n-1-k3).Draw(t, "lateNode")) % w.n
+				if rapid.IntRange(0, 4).Draw(t, "lateAnyNode") == 0 {
+					node = rapid.IntRange(0, w.n-1).Draw(t, "lateNode")
+				}
+
+				vote(kind, h, rr, node)
+			}
+
+			between()
+
+			// (5) the remaining votes for the later stage point
+			cutq := rapid.SampledFrom([]int{w.n, w.n, w.n, w.n - 1, w.n / 2}).Draw(t, "laterCut")
+
+			for i := k3; i < w.n; i++ {
+				kind := kindOf(q)
+				if i >= cutq {
+					kind += "X"
+				}
+
+				vote(kind, qh, q.r, (s3+i)%w.n)
+			}
+
+			check()
+		}
+
+		actions["severalRounds"] = func(t *rapid.T) {
+			if w.n < 3 {
+				t.Skip("suffrage-confirm ballots need >= 3 nodes")
+			}
+
+			severalRounds(t)
+		}
+
+		// sometimes the history opens with it: the box is fresh then and every stage point of the height is still votable
+		if w.n >= 3 && rapid.Bool().Draw(rt, "openWithSeveralRounds") {
+			severalRounds(rt)
+		}
+	}
+
 	rt.Repeat(actions)
 
 	// final: make sure everything voted was counted once more
@@ -400,9 +562,10 @@ func bbMachine(rt *rapid.T, r *ev.Rec, o bbMachineOpts, c05 *c05State) (w *bbWor
 func TestC04(t *testing.T) {
 	r := ev.Start(t, "C04")
 	defer r.Finish()
-	r.Rule("rapid state machine over a real Ballotbox: suffrage 1..7 (local a member or not), thresholds {60,67,80,100}, heights 33..35, rounds 0..2; " +
+	r.Rule("rapid state machine over a real Ballotbox: suffrage 1..7 (local a member or not), thresholds {60,67,80,100}, heights 33..36, rounds 0..5; " +
 		"actions Vote(real IsValid ballots: honest/conflicting INIT+ACCEPT, suffrage-confirm with an INIT expel voteproof, ballots carrying expels signed fully/by one/with a foreign signer/expired, " +
 		"foreign and wrong-key signers), runs of the same ballot from k nodes, split votes that end in a draw, Count, SetLastPointFromVoteproof, suffrage lookup found/not-found toggles, concurrent voters; " +
+		"a composite action plays a height that needs several rounds (a suffrage-confirm round that mostly stays unfinished, a drawn walk over later stage points whose votes split into draws or majorities, first votes for a still later stage point, late ballots for earlier points of the height, then the remaining votes; other actions drawn in between; half of the histories open with it); " +
 		"a second phase runs long histories (60 steps, suffrage-confirm-heavy, runs that reach results) so that records are cleaned and recycled; every voteproof received on Voteproof() is judged. non-trivial = history with >=1 counted voteproof and a conflicting ballot, an expel or a concurrent phase; distinct by history")
 	r.Floor(20)
 	r.Assume("every ballot given to Vote satisfies bl.IsValid(networkID) (launch validates before voting)",
@@ -415,12 +578,13 @@ func TestC04(t *testing.T) {
 	r.ShrinkTime(20 * time.Second)
 
 	rapid.Check(t, func(rt *rapid.T) {
-		w, counted := bbMachine(rt, r, bbMachineOpts{maxN: 7, concurrent: true}, nil)
+		w, counted := bbMachine(rt, r, bbMachineOpts{maxN: 7, concurrent: true, rounds: true}, nil)
 
 		nontrivial := counted > 0 && (w.hadConfl || w.hadExpel || w.hadConc)
 		r.Case(strings.Join(w.history, ";"), nontrivial, fmt.Sprintf("counted:%v", counted > 0), fmt.Sprintf("expel:%v", w.hadExpel), fmt.Sprintf("concurrent:%v", w.hadConc))
 		r.Class("emitted", int64(len(w.emitted)))
 		r.Class("counted", int64(counted))
+		r.Class("histories-with-several-round-height", bbCountMark(w))
 
 		if nontrivial && r.WantSample() {
 			var vps []string
@@ -442,11 +606,22 @@ func TestC04(t *testing.T) {
 	r.Steps(60)
 
 	rapid.Check(t, func(rt *rapid.T) {
-		w, counted := bbMachine(rt, r, bbMachineOpts{maxN: 5, checkC05: true}, nil)
+		w, counted := bbMachine(rt, r, bbMachineOpts{maxN: 5, checkC05: true, rounds: true}, nil)
 
 		nontrivial := counted >= 2 && w.hadExpel
 		r.Case("long;"+strings.Join(w.history, ";"), nontrivial, "phase:long", fmt.Sprintf("long-counted>=2:%v", counted >= 2))
 		r.Class("emitted", int64(len(w.emitted)))
 		r.Class("counted", int64(counted))
+		r.Class("histories-with-several-round-height", bbCountMark(w))
 	})
+}
+
+func bbCountMark(w *bbWorld) int64 {
+	for _, h := range w.history {
+		if strings.HasPrefix(h, bbSeveralRoundsMark) {
+			return 1
+		}
+	}
+
+	return 0
 }
